@@ -48,6 +48,8 @@ UNMODELLED = [
     "the wire-level theorem (wire_writeback) is about the MODEL's emission emitW, which is tied to the real compiler by per-probe "
     "comparison (T-obj), and assumes a store that conforms to the root type; the classical-set assignment emitAssignSetW is compared and "
     "executed per probe, not proved at wire level (its place-level sequence is: assign_set_lens)",
+    "std custom compilers that thread borrowed values other than with_owned / mem_swap / project_z (Option and Either take/swap, list ops, "
+    "qsystem RNG context, barrier, wasm)",
     "comptime functions (update_packed_value, D15 is under C21), classical setitem (get/set) write-back, index expressions with side effects (C05), "
     "places on the left of assignments (`xs[i].f = v`, _assign_place) beyond the shared __setitem__ cascade",
 ]
@@ -367,6 +369,9 @@ def py_run(prog, inputs):
 
 
 # ------------------------------------------------------------------ extraction
+LINEAR_PROBLEMS: list = []
+
+
 def extract_probe(src, fname="probe"):
     import feed
     import c19_ssa as S
@@ -380,6 +385,9 @@ def extract_probe(src, fname="probe"):
         B = S.Block(h, bs[0])
         instrs, outs = S.prune(B.instrs, B.n_in, B.outs)
         sig = S.func_signature(h, fn)
+        lp = S.linear_use_problems(h, fn)
+        if lp:
+            LINEAR_PROBLEMS.append((src, lp))
         op = h[fn].op
         in_tys = [str(t) for t in op.inputs]
         out_tys = [str(t) for t in op.outputs]
@@ -421,6 +429,129 @@ def sig_src(params, nres, perm):
     args = ", ".join(f"p{j}" for j in range(len(params)))
     src += f"@guppy\ndef caller({decl}) -> {rty}:\n    return g({args})\n"
     return src
+
+
+# ------------------------------------------------------------------ std helpers that implement borrowing by hand (linear types)
+STD_SRC = '''
+@guppy
+def wo_var(q: qubit) -> bool:
+    def helper(q: qubit @owned) -> tuple[bool, qubit]:
+        return measure(q), qubit()
+    return with_owned(q, helper)
+
+@guppy
+def wo_elem(qs: array[qubit, 3], i: int) -> bool:
+    def helper(q: qubit @owned) -> tuple[bool, qubit]:
+        return measure(q), qubit()
+    return with_owned(qs[i], helper)
+
+@guppy
+def swap_vars(a: qubit, b: qubit) -> None:
+    mem_swap(a, b)
+
+@guppy
+def swap_elem(qs: array[qubit, 3], i: int, b: qubit) -> None:
+    mem_swap(qs[i], b)
+
+@guppy
+def meas_ret(q: qubit) -> bool:
+    return project_z(q)
+'''
+
+
+def std_helper_probes(ctx):
+    """with_owned / mem_swap / project_z on qubits: the lent wire is consumed exactly once and the value that comes back
+    into the borrowed place is the callee's (resp. the other place's) — read off the lowered Hugr"""
+    import feed
+    import c19_ssa as S
+    m = feed.load(STD_SRC, prelude=feed.PRELUDE + "from guppylang.std.quantum import *\nfrom guppylang.std.mem import with_owned, mem_swap\n")
+    try:
+        for fname in ("wo_var", "wo_elem", "swap_vars", "swap_elem", "meas_ret"):
+            case = {"kind": "std", "fn": fname}
+            ctx.count(case, nontrivial=True, kind="std-helper")
+            key = f"input:std-helper {fname}"
+            try:
+                h = feed.lower(getattr(m, fname)).hugr
+                fn = S.find_func(h, fname)
+                B = S.Block(h, S.dataflow_blocks(h, fn)[0])
+                instrs, outs = S.prune(B.instrs, B.n_in, B.outs)
+            except Exception as e:  # noqa: BLE001
+                ctx.violation(key, f"{fname} is not compiled: {type(e).__name__}: {e}", {"case": case, "source": STD_SRC})
+                continue
+            prog = (B.n_in, instrs, outs)
+            probs = S.linear_use_problems(h, fn)
+            starts, nxt = [], B.n_in
+            for ins in instrs:
+                starts.append(nxt)
+                nxt += ins[3]
+            def find(name):
+                return [(k, ins) for k, ins in enumerate(instrs) if ins[0] == name]
+            if fname in ("wo_var", "wo_elem"):
+                ci = find("CallIndirect")
+                if len(ci) != 1:
+                    probs.append(f"{len(ci)} CallIndirect nodes")
+                else:
+                    k, ins = ci[0]
+                    o_out, o_val = starts[k], starts[k] + 1
+                    if fname == "wo_var":
+                        if 0 not in ins[2]:
+                            probs.append("the closure is not called on the lent qubit")
+                        if outs != [o_out, o_val]:
+                            probs.append(f"outputs {outs}: the borrowed qubit must be the closure's second result (wire {o_val})")
+                    else:
+                        rets = find("return")
+                        bor = find("borrow")
+                        if len(rets) != 1 or len(bor) != 1:
+                            probs.append("expected one borrow and one return")
+                        else:
+                            if starts[bor[0][0]] + 1 not in ins[2]:
+                                probs.append("the closure is not called on the borrowed element")
+                            if rets[0][1][2][2] != o_val:
+                                probs.append(f"the element written back is wire {rets[0][1][2][2]}, not the closure's second result {o_val}")
+            elif fname == "swap_vars":
+                if instrs or outs != [1, 0]:
+                    probs.append(f"mem_swap(a, b) should just exchange the two wires: {S.to_sexp(*prog)}")
+            elif fname == "swap_elem":
+                rets, bor = find("return"), find("borrow")
+                if len(rets) != 1 or len(bor) != 1 or rets[0][1][2][2] != 2 or outs[-1:] != [starts[bor[0][0]] + 1]:
+                    probs.append(f"mem_swap(qs[i], b): b must go into the array and the element must come back as b: {S.to_sexp(*prog)}")
+            if probs:
+                ctx.violation(key, f"{fname}: " + "; ".join(probs) + f" — lowered op list {S.to_sexp(*prog)}",
+                              {"case": case, "source": STD_SRC, "extracted": S.to_sexp(*prog), "problems": probs})
+    finally:
+        feed.unload(m)
+
+
+def index_once_probe(ctx, rng):
+    """index expressions are evaluated exactly once per source occurrence: a borrowing call on a place whose subscripts are
+    indexed by calls `ix(i_k)` must contain exactly one `Call ix` per subscript, and every itousize reads one of them"""
+    import c19_ssa as S
+    seqs = [("sub",), ("sub", "sub"), ("sub", "field", "sub"), ("sub", "sub", "sub"), ("field", "sub", "tuple", "sub")]
+    for ks in seqs:
+        p = gen_probe(rng, list(ks), "q")
+        src, expr = probe_src(p)
+        for k in range(1, p.m + 1):
+            src = src.replace(f"[i{k}]", f"[ix(i{k})]")
+        src = "@guppy.declare\ndef ix(i: int) -> int: ...\n\n" + src
+        expr2 = expr
+        case = {"kind": "index-once", "kinds": list(ks)}
+        ctx.count(case, nontrivial=True, kind="index-once")
+        try:
+            prog, _sig, _i, _o = extract_probe(src)
+        except Exception as e:  # noqa: BLE001
+            ctx.violation(f"input:index-once {ks}", f"probe with call indices is not compiled: {type(e).__name__}: {e}",
+                          {"case": case, "source": src})
+            continue
+        n_in, instrs, outs = prog
+        starts, nxt = [], n_in
+        for ins in instrs:
+            starts.append(nxt)
+            nxt += ins[3]
+        calls = [starts[k] for k, ins in enumerate(instrs) if ins[0] == "call" and ins[1] == ["ix"]]
+        conv = [ins[2][0] for ins in instrs if ins[0] == "itousize"]
+        if len(calls) != p.m or any(w not in calls for w in conv) or any(c not in conv for c in calls):
+            ctx.broke(f"T-obj: index expressions of cal({expr2}) with call indices: {len(calls)} calls of ix for {p.m} subscripts "
+                      f"(each index must be evaluated exactly once): {sexp(prog)}")
 
 
 # ------------------------------------------------------------------ regression: stale struct wire (fixed in /repo 32e45a7)
@@ -571,10 +702,13 @@ def gen_e2e_place(rng, kinds, arg_kind, variant):
             t = mk_struct(elems) if kind == "field" else ("tp", elems)
             steps.append(("proj", pos))
     steps.reverse()
+    fx = variant.endswith("+fx") and m > 0
+    variant = variant.replace("+fx", "")
     expr, tt = "x", t
     for st_ in steps:
         if st_[0] == "sub":
-            expr += f"[i{st_[1]}]"
+            # with `fx` the index is a non-idempotent call: it must be evaluated exactly once, left to right
+            expr += "[nxt(c)]" if fx and (st_[1] == 1 or rng.random() < 0.6) else f"[i{st_[1]}]"
             tt = tt[1]
         else:
             expr += f".f{st_[1]}" if tt[0] == "st" else f"[{st_[1]}]"
@@ -583,12 +717,35 @@ def gen_e2e_place(rng, kinds, arg_kind, variant):
     for name, fields in structs:
         out.append("@guppy.struct\nclass %s:\n%s\n" % (name, "\n".join(f"    f{k}: {_e_src(ft)}" for k, ft in enumerate(fields))))
     out.append(f"@guppy\ndef cal(a: {_e_src(arg_ty)}) -> None:\n" + "\n".join("    " + b for b in body) + "\n")
+    if fx:
+        out.append("@guppy\ndef nxt(c: array[int, 1]) -> int:\n    c[0] = c[0] + 1\n    return (c[0] - 1) % 3\n")
     if variant == "nest":
         out.append(f"@guppy\ndef outer(a: {_e_src(arg_ty)}) -> None:\n    cal(a)\n    cal(a)\n")
-    params = ", ".join(f"i{j}: int" for j in range(1, m + 1))
-    call = {"once": f"    cal({expr})", "twice": f"    cal({expr})\n    cal({expr})", "nest": f"    outer({expr})"}[variant]
-    out.append(f"@guppy\ndef main({params}) -> {_e_src(t)}:\n    x = {_e_lit(t, itertools.count(1))}\n{call}\n    return x\n")
-    return "\n".join(out), expr, m
+    if variant in ("owned_grow", "owned_replace", "swap_own"):
+        out.append("@guppy\ndef grow(a: array[int, 2] @owned) -> tuple[int, array[int, 2]]:\n    a[0] += 100\n    return a[1], a\n")
+        out.append("@guppy\ndef replace(a: array[int, 2] @owned) -> tuple[int, array[int, 2]]:\n    return a[0] + a[1], array(77, 88)\n")
+    params = ", ".join([f"i{j}: int" for j in range(1, m + 1)] + (["i0: int"] if fx else []))
+    pre = "    c = array(i0)\n" if fx else ""
+    rty, ret = _e_src(t), "x"
+    if variant == "once":
+        call = f"    cal({expr})"
+    elif variant == "twice":
+        call = f"    cal({expr})\n    cal({expr})"
+    elif variant == "nest":
+        call = f"    outer({expr})"
+    elif variant == "owned_grow":
+        call, rty, ret = f"    r = with_owned({expr}, grow)", f"tuple[int, {_e_src(t)}]", "r, x"
+    elif variant == "owned_replace":
+        call, rty, ret = f"    r = with_owned({expr}, replace)\n    cal({expr})", f"tuple[int, {_e_src(t)}]", "r, x"
+    elif variant == "swap":
+        call, rty, ret = f"    y = array(91, 92)\n    mem_swap({expr}, y)\n    cal(y)", f"tuple[{_e_src(t)}, array[int, 2]]", "x, y"
+    else:  # swap_own
+        call = f"    y = array(91, 92)\n    mem_swap(y, {expr})\n    r = with_owned({expr}, replace)"
+        rty, ret = f"tuple[int, {_e_src(t)}, array[int, 2]]", "r, x, y"
+    if fx:
+        rty, ret = (f"tuple[{rty[6:-1]}, int]" if rty.startswith("tuple[") and ret != "x" else f"tuple[{rty}, int]"), ret + ", c[0]"
+    out.append(f"@guppy\ndef main({params}) -> {rty}:\n    x = {_e_lit(t, itertools.count(1))}\n{pre}{call}\n    return {ret}\n")
+    return "\n".join(out), expr, m + (1 if fx else 0)
 
 
 def e2e(ctx):
@@ -603,6 +760,10 @@ def e2e(ctx):
         arg_kinds = ["ai", rng.choice(["aa", "st", "tp"])] if ctx.quick else ["ai", "aa", "st", "tp"]
         for a in arg_kinds:
             variant = rng.choice(["once", "once", "twice", "nest"])
+            if a == "ai" and rng.random() < 0.6:  # std helpers that implement borrowing by hand
+                variant = rng.choice(["owned_grow", "owned_replace", "swap", "swap_own"])
+            if "sub" in ks and rng.random() < 0.5:
+                variant += "+fx"
             src, expr, m = gen_e2e_place(rng, list(ks), a, variant)
             inputs = [tuple(rng.randrange(0, 3) for _ in range(m)) for _ in range(3 if m else 1)]
             if m:
@@ -632,6 +793,8 @@ def tie(ctx):
         corpus.append(ctx.replay_in["replay"]["case"])
 
     stale_struct_check(ctx)
+    std_helper_probes(ctx)
+    index_once_probe(ctx, rng)
     e2e(ctx)
 
     # ---- place probes
@@ -774,6 +937,11 @@ def tie(ctx):
             lines.append(f"(lens2 {ps} {val_sexp(store)} {val_sexp(newv)})")
 
     reps = ctx.driver(DRIVER, lines)
+
+    for src_l, lp in LINEAR_PROBLEMS[:5]:
+        ctx.violation("input:linear-use " + src_l, "a wire of linear type is not consumed exactly once in the lowered probe: "
+                      + "; ".join(lp[:3]) + f"; source:\n{src_l}", {"case": {"kind": "linear-use"}, "source": src_l, "problems": lp})
+    del LINEAR_PROBLEMS[:]
 
     # ---- evaluate set-assignment probes
     base3 = 5 * len(cases) + len(sig_runs) + 4 * len(a_cases)
